@@ -1065,6 +1065,7 @@ Library read_gds(const char* filename, double unit, double tolerance, const Set<
                 break;
             case GdsiiRecord::PATH:
             case GdsiiRecord::RAITHMBMSPATH:
+                width = 0;  // WIDTH is optional and defaults to zero; never inherit the previous one
                 path = (FlexPath*)allocate_clear(sizeof(FlexPath));
                 path->num_elements = 1;
                 path->elements = (FlexPathElement*)allocate_clear(sizeof(FlexPathElement));
